@@ -99,6 +99,7 @@ struct ThreadCtx {
         int ttl;
     };
     std::vector<SbEnt> sb;
+    int64_t max_timed_request_ns = 0;     // longest time-out a timed lock operation was asked to wait for (harness clears it)
     std::vector<const void*> block_objs;  // mutexes / condvars this thread performed an untimed blocking wait on (harness clears it)
     // fault injection (per thread): the k-th call of maybe_throw() at an enabled site throws
     long throw_at = 0;
@@ -737,6 +738,8 @@ class vm_core {
         int64_t n = static_cast<int64_t>(now.tv_sec) * 1000000000LL + now.tv_nsec;
         auto ns = std::chrono::duration_cast<std::chrono::nanoseconds>(d).count();
         if (ns < 0) ns = 0;
+        ThreadCtx& c = ctx();
+        if (ns > c.max_timed_request_ns) c.max_timed_request_ns = ns;
         return n + ns;
     }
     template<class Clock, class Dur>
